@@ -118,6 +118,15 @@ func NewReader(db *bolt.DB, sr *io.SectionReader, opts ...metadata.Option) (meta
 			errs = append(errs, fmt.Errorf("invalid TOC position (offset %d, size %d) in blob of size %d", tocOffset, tocSize, sr.Size()))
 			continue
 		}
+		if tocOffset >= 0 {
+			// The bytes fetched along with the footer start where the TOC offset hint (or the
+			// footer size) says, which isn't necessarily where the footer says the TOC starts.
+			if skip := tocOffset - (sr.Size() - int64(len(footer))); skip < 0 || skip > int64(len(maybeTocBytes)) {
+				maybeTocBytes = nil // TOC isn't (entirely) in the fetched bytes; read it from the blob
+			} else {
+				maybeTocBytes = maybeTocBytes[skip:]
+			}
+		}
 		if tocOffset >= 0 && tocSize < int64(len(maybeTocBytes)) {
 			maybeTocBytes = maybeTocBytes[:tocSize]
 		}
